@@ -390,13 +390,16 @@ def targets_pt(prop='C03'):
             for wi in (False, True):
                 for wo in (False, True):
                     T.append(WireTarget('pt/get_mpo_tensor[rank=%d,in=%s,out=%s]' % (rank, wi, wo), cls + '.get_mpo_tensor',
-                                        build_get_mpo(rank, wi, wo, cls=cls), check_get_mpo, prop, registry=R))
+                                        build_get_mpo(rank, wi, wo, cls=cls), check_get_mpo, prop, registry=R,
+                                        replay=(lambda ob: {'func': 'pt_accessor', 'inputs': {'obligation': ob['name'], 'history': False}})
+                                        if prop == 'C03' else None))
             T.append(WireTarget('pt/get_mpo_tensor[rank=%d,untransformed]' % rank, cls + '.get_mpo_tensor',
                                 build_get_mpo(rank, True, True, transformed=False, cls=cls), check_get_mpo, prop, registry=R))
             for tr in (True, False):
                 T.append(WireTarget('pt/get_mpo_tensor[rank=%d,%s,after the step was read and replaced]' % (rank, 'transformed' if tr else 'untransformed'),
                                     cls + '.get_mpo_tensor', build_get_mpo(rank, True, True, transformed=tr, cls=cls, history=True), check_get_mpo, prop,
-                                    registry=R, replay=lambda ob: {'func': 'set_after_get', 'inputs': {'obligation': ob['name']}}))
+                                    registry=R, replay=(lambda ob: {'func': 'pt_accessor', 'inputs': {'obligation': ob['name'], 'history': True}})
+                                    if prop == 'C03' else (lambda ob: {'func': 'set_after_get', 'inputs': {'obligation': ob['name']}})))
     for ranks in ((4,), (3,), (4, 4), (3, 4), (4, 3, 4)):
         T.append(WireTarget('pt/compute_caps%s' % (list(ranks),), 'process_tensor.SimpleProcessTensor.compute_caps',
                             build_caps_simple(ranks), check_caps_simple, prop, registry=R,
